@@ -8,7 +8,7 @@
 #
 import re
 
-from ural.patterns import QUERY_VALUE_IN_URL_TEMPLATE
+from ural.patterns import QUERY_VALUE_IN_URL_TEMPLATE, PROTOCOL_RE
 from ural.utils import unquote, urljoin
 
 OBVIOUS_REDIRECTS_RE = re.compile(
@@ -66,7 +66,11 @@ def infer_redirection(url, recursive=True):
 
             # Basic relative url
             elif potential_target.startswith("/"):
-                target = urljoin(url, potential_target)
+                if PROTOCOL_RE.match(url):
+                    target = urljoin(url, potential_target)
+                else:
+                    # NOTE: joining needs a scheme to know where the host ends
+                    target = urljoin("http://" + url, potential_target)[7:]
 
             # Idiotic youtube redirections
             elif "youtube.com/redirect?" in url:
